@@ -146,6 +146,9 @@ class Translator:
         """python name / attribute chain -> the chain the kernel interface is keyed on"""
         ch = self.local_alias.get(ch, ch)
         head, _, rest = ch.partition('.')
+        if rest and head in self.local_alias and head not in self.defined:
+            ch = self.local_alias[head] + '.' + rest
+            head, _, rest = ch.partition('.')
         if head not in self.defined:
             if head in self.param_alias:
                 ch = self.param_alias[head] + ('.' + rest if rest else '')
@@ -427,7 +430,12 @@ class Translator:
                 ch = chain_of(s.value) if isinstance(s.value, (ast.Name, ast.Attribute)) else None
                 if ch is not None:
                     ch = self.resolve(ch)
-                    if ch in self.k.calls or ch in self.k.ident_calls:
+                    keys = list(self.k.calls) + list(self.k.ident_calls) + list(self.k.attrs)
+                    on_path = ch not in self.k.attrs and any(k.startswith(ch + '.') or k.startswith('for:' + ch + '.') for k in keys)
+                    if ch in self.k.calls or ch in self.k.ident_calls or on_path:
+                        # a local name for a callable or for an object on the way to one (`lattice = self.lattice`)
+                        if names[0] in self.local_alias or names[0] in self.defined:
+                            raise Unsupported(f'alias {names[0]!r} rebound')
                         self.local_alias[names[0]] = ch
                         return self.block(rest, k_text, yields)
             b, t, ty = self.expr(s.value)
